@@ -82,8 +82,14 @@ func refTransform(kind string, opts int, base []tokRec) ([]tokRec, []int) {
 		if t.typ == tokenizers.Unknown && opts&optSkipUnknown != 0 {
 			continue
 		}
-		if opts&optDecode != 0 && fromQuoteState(kind, t) {
-			t.val = refDecode(kind, t.val)
+		if opts&optDecode != 0 {
+			if fromQuoteState(kind, t) {
+				t.val = refDecode(kind, t.val)
+			} else if r := []rune(t.val); len(r) > 0 && strings.ContainsRune("'\"«”\u00ff", r[0]) && refDecode(kind, t.val) == unspecifiedValue {
+				// a literal that is not well formed, whatever type the tokenizer gives it: its value under
+				// the decode option is not pinned by any statement
+				t.val = unspecifiedValue
+			}
 		}
 		if t.typ == tokenizers.Comment && opts&optSkipComments != 0 {
 			continue
